@@ -72,8 +72,11 @@ def make_np(npc):
 
 
 def make_mab(cfg):
-    return MAB(list(cfg["arms"]), make_lp(cfg["lp"], cfg.get("binz")), make_np(cfg.get("np")),
-               seed=cfg.get("seed", 123456), n_jobs=cfg.get("n_jobs", 1), backend=cfg.get("backend"))
+    mab = MAB(list(cfg["arms"]), make_lp(cfg["lp"], cfg.get("binz")), make_np(cfg.get("np")),
+              seed=cfg.get("seed", 123456), n_jobs=cfg.get("n_jobs", 1), backend=cfg.get("backend"))
+    if cfg.get("int_ctx"):
+        mab._verif_int_ctx = True        # twinlib.apply_op passes integral contexts as integer-typed rows
+    return mab
 
 
 EXACT_METRICS = ("cityblock", "chebyshev", "sqeuclidean", "euclidean")
